@@ -53,7 +53,7 @@ def view(eng) -> dict:
         ty = d.get("type")
         if ty == "render_directive":
             if d.get("mode") == "evaluated":
-                rds.append(("eval", d.get("name", ""), dict(d.get("data", {}))))
+                rds.append(("eval", d.get("name", ""), copy.deepcopy(d.get("data", {}))))   # the data as shown NOW (arguments may be live story objects)
             elif d.get("mode") == "error":
                 rds.append(("error", d.get("name", ""), d.get("raw_args", "")))
             else:
